@@ -30,6 +30,7 @@ type c16Env struct {
 	be     Backend
 	dump   []byte // a dump of a similar cache, for Restore
 	fo     func(ctx context.Context, key []byte, ok bool) // Failover Get
+	invFresh []*cache.Invalidator
 	inv    *cache.Invalidator
 	export http.Handler
 	name   string
@@ -172,6 +173,8 @@ func c16opGetNewKeys(e *c16Env, r *rand.Rand, n int) {
 func c16opInvalidate(e *c16Env, r *rand.Rand, n int) {
 	for i := 0; i < n; i++ {
 		_ = e.inv.Invalidate(bg)
+		// and the very first calls of an Invalidator left at its zero configuration (both goroutines walk the same list)
+		_ = e.invFresh[i%len(e.invFresh)].Invalidate(bg)
 	}
 }
 func c16opExportHTTP(e *c16Env, r *rand.Rand, n int) {
@@ -263,6 +266,9 @@ func c16NewEnv(kind string, strat int, failover string, rng *rand.Rand) *c16Env 
 		e.inv.SkipInterval = 0 // the zero value: the documented default is filled in lazily
 	}
 	e.inv.Callbacks = append(e.inv.Callbacks, e.be.ExpireAll, e.be.DeleteAll)
+	for i := 0; i < 256; i++ {
+		e.invFresh = append(e.invFresh, &cache.Invalidator{Callbacks: []func(context.Context){func(context.Context) {}}})
+	}
 	errFail := errors.New("build failed")
 	faulty := rng.Intn(2) == 0 // user-supplied backend that fails now and then with an unexpected error
 	switch failover {
